@@ -1,36 +1,40 @@
 /-
   Model/C09.lean — purity of construction and parsing: the memo state of the package and the options it reads.
+  (file:line references are to /repo at commit a428504)
 
   All cross-call state that can influence the RESULT of constructing a bitstring from a string, parsing a
   format / token string or creating a Dtype is
     * eight `functools.lru_cache(CACHE_SIZE)` objects
-        bitstore_helpers.py:27  str_to_bitstore(s)
-        utils.py:81             parse_name_length_token(fmt, **kwargs)
-        utils.py:102            parse_single_struct_token(fmt)
-        utils.py:119            parse_single_token(token)
-        utils.py:142            preprocess_tokens(fmt)
-        utils.py:169            tokenparser(fmt, keys)
-        dtypes.py:137-139       Dtype._new_from_token(cls, token, scale)
-        dtypes.py:146-148       Dtype._create(cls, definition, length, scale)     (keys compared with ==)
+        bitstore_helpers.py:27-28  str_to_bitstore(s)
+        utils.py:81-82             parse_name_length_token(fmt, **kwargs)
+        utils.py:102-103           parse_single_struct_token(fmt)
+        utils.py:119-120           parse_single_token(token)
+        utils.py:142-143           preprocess_tokens(fmt)
+        utils.py:169-170           tokenparser(fmt, keys)
+        dtypes.py:137-139          Dtype._new_from_token(cls, token, scale)
+        dtypes.py:146-148          Dtype._create(cls, definition, length, scale)     (keys compared with ==)
       with `CACHE_SIZE = 256` (bitstore_helpers.py:15, utils.py:14, dtypes.py:9),
-    * the `Options` singleton (bitstring_options.py:7-82): `_lsb0`, `_bytealigned`, `_mxfp_overflow`, and the
-      thirteen class attributes `set_lsb0` re-binds (bitstring_options.py:44-69),
-    * `Array._largest_values` (array_.py:95-110), built once, by nine string constructions.
+    * the `Options` singleton (bitstring_options.py:7-86): `_lsb0`, `_bytealigned`, `_mxfp_overflow`, and the
+      thirteen class attributes `set_lsb0` re-binds (bitstring_options.py:46-73),
+    * `Array._largest_values` (array_.py:95-112), built once, by nine string constructions.
 
   SPEC layer: `pureRun` — every call is evaluated directly, under the options in force at that moment.
   ALG layer:  `cachedCall` (functools.lru_cache), the single-cache machine `step`/`run` (calls, option assignments,
               cache_clear) and the eight-cache system `sysStep`/`sysRun` with the method bindings.
   Which computation reads which option:
-    * `str_to_bitstore` → `bitstore_from_token` → `Dtype.build` → `_setue/_setse/_setuie/_setsie` raise
-      CreationError when `options.lsb0` (bits.py:819,876,899,926);
+    * `str_to_bitstore` → `bitstore_from_token` (bitstore_helpers.py:261) → `Dtype.build` →
+      `_setue/_setse/_setuie/_setsie` raise CreationError when `options.lsb0` (bits.py:856, 913, 936, 963);
       `e4m3mxfp2bitstore` / `e5m2mxfp2bitstore` choose the saturate or the overflow table from
-      `options.mxfp_overflow` (bitstore_helpers.py:132-147) — the result differs exactly for values beyond the
+      `options.mxfp_overflow` (bitstore_helpers.py:132-148) — the result differs exactly for values beyond the
       largest finite one;
-    * the other seven cached functions read no option.
-  The cache key of `str_to_bitstore` is the string alone and neither option setter touches a cache
-  (bitstring_options.py:25-30, 41-69): that is the known deviation; `Cfg.inval` / `SysCfg.inval` say which
-  assignments clear which cache, so the same definitions describe the code as pinned (`inval = false`) and the
-  repaired code (`inval = true` for the options the cached function reads).
+    * the other seven cached functions read no option (string processing; a Dtype holds references to set/get
+      functions that read the options when they are CALLED, not when the Dtype is created).
+  The cache key of `str_to_bitstore` is the string alone.  Since a428504 both setters clear that cache
+  (bitstring_options.py:31-32, 48-49); before, no setter touched a cache and a string parsed under one setting was
+  served under another.  `Cfg.inval` / `SysCfg.inval` say which assignments clear which cache, so the same
+  definitions describe both shapes; the driver takes the shape of the working tree from two evaluated facts
+  (`Gen.staleAfterMxfp`, `Gen.staleAfterLsb0`), and `Props.head_setters_invalidate` makes "the setters
+  invalidate" a generated obligation of every run.
   Cached results are immutable VALUES here; that a cached store is never written through an alias is C04.
 -/
 import BitstringModel.Model.Basic
@@ -159,7 +163,7 @@ def callTrace (o : Opts) : List (Op α) → List (Opts × α)
   | .call a :: ops => (o, a) :: callTrace o ops
   | op :: ops => callTrace (optsStep o op) ops
 
-/-- REGION of the known deviation: some key is used twice, under options for which the wrapped function gives
+/-- REGION where a cache that no setter clears can serve a stale entry: some key is used twice, under options for which the wrapped function gives
     different results (an option it reads was changed between a parse and a re-use). -/
 def reuse_after_option_change [DecidableEq ν] (m : Cfg α κ ν) (o : Opts) (ops : List (Op α)) : Bool :=
   let t := callTrace o ops
@@ -207,8 +211,8 @@ def sem (cid : CacheId) (o : Opts) (a : Call) : Except Err Val :=
   if a.raises then .error .value else
   match cid with
   | .strToBitstore =>
-    if a.readsLsb0 && o.lsb0 then .error .value                          -- bits.py:819-820 (CreationError)
-    else .ok ⟨a, if a.readsMxfp then some o.mxfpOverflow else none⟩      -- bitstore_helpers.py:132-147
+    if a.readsLsb0 && o.lsb0 then .error .value                          -- bits.py:856-857 (CreationError)
+    else .ok ⟨a, if a.readsMxfp then some o.mxfpOverflow else none⟩      -- bitstore_helpers.py:132-148
   | _ => .ok ⟨a, none⟩
 
 abbrev Table := List ((String × String) × String)
@@ -218,7 +222,7 @@ def tableFind : Table → String × String → Option String
   | (k', v) :: t, k => if k' = k then some v else tableFind t k
 
 /-- `for cls, d in methods.items(): for attr, method in d.items(): setattr(cls, attr, method)`
-    (bitstring_options.py:66-69); the binding made last is found first. -/
+    (bitstring_options.py:70-73); the binding made last is found first. -/
 def applyTable (b : Table) (t : Table) : Table := t.reverse ++ b
 
 /-- The method a table names for an attribute (a later entry for the same attribute wins, as in a dict literal). -/
@@ -295,7 +299,8 @@ def sysStep (cfg : SysCfg) (s : Sys) : SysOp → Sys × SysOut
     let p := cachedCall (cfg.cap cid) (s.get cid) a (sem cid s.opts a)
     (s.put cid p.1, .called cid s.opts a p.2)
   | .setOpt n v =>
-    -- the property setters (bitstring_options.py:25-30, 41-43, 75-77); `lsb0` also re-binds the methods
+    -- the property setters (bitstring_options.py:25-32, 42-49, 79-81); `lsb0` also re-binds the methods;
+    -- `cfg.inval` = which caches the setter clears (a428504: str_to_bitstore, for lsb0 and mxfp_overflow)
     let s1 := { s with opts := s.opts.set n v }
     let s2 := match n with
       | .lsb0 => { s1 with bindings := applyTable s1.bindings (cfg.table v) }
@@ -329,13 +334,13 @@ def sysCallTrace (o : Opts) : List SysOp → List (Opts × CacheId × Call)
 def strCalls (ops : List SysOp) : List (Opts × CacheId × Call) :=
   (sysCallTrace Opts.init ops).filter fun p => decide (p.2.1 = CacheId.strToBitstore)
 
-/-- REGION of known deviation 2: a string with an exp-Golomb token is constructed under both lsb0 values. -/
+/-- REGION of deviation 2 (tree before a428504; setters that do not clear): a string with an exp-Golomb token is constructed under both lsb0 values. -/
 def reuse_after_lsb0_change (ops : List SysOp) : Bool :=
   let t := strCalls ops
   t.any fun p => t.any fun q =>
     decide (p.2.2 = q.2.2) && p.2.2.readsLsb0 && !p.2.2.raises && (p.1.lsb0 != q.1.lsb0)
 
-/-- REGION of known deviation 1: a string with an overflowing e4m3mxfp/e5m2mxfp token is constructed (without
+/-- REGION of deviation 1 (tree before a428504; setters that do not clear): a string with an overflowing e4m3mxfp/e5m2mxfp token is constructed (without
     raising) under both mxfp_overflow values. -/
 def reuse_after_mxfp_overflow_change (ops : List SysOp) : Bool :=
   let t := strCalls ops
@@ -379,7 +384,7 @@ def SameKeys (cfg : SysCfg) : Prop :=
 def tableKeysSubset (t t' : Table) : Bool := t.all fun e => (t'.map (·.1)).contains e.1
 
 /-- `str_to_bitstore` alone, as one memoised function: keyed on the string, reading lsb0 and mxfp_overflow;
-    `inv` = do the option setters clear it (pinned tree: no). -/
+    `inv` = do the option setters clear it (before a428504: no; since: yes). -/
 def strCfg (cap : Nat) (inv : Bool) : Cfg Call Call Val :=
   { cap := cap, key := id, f := sem .strToBitstore,
     inval := fun n => match n with | .bytealigned => false | _ => inv }
@@ -453,7 +458,7 @@ def cacheIdOfFn : String → Option CacheId
   | "_create" => some .create
   | _ => none
 
-/-- The nine constructions of `Array._calculate_auto_scale` (array_.py:99-109), in source order. -/
+/-- The nine constructions of `Array._calculate_auto_scale` (array_.py:101-112), in source order. -/
 def largestValuesLiterals : List String :=
   ["0b01111111", "0b0111", "0b011111", "0b011111", "0b01111110", "0b01111011", "0b01111110", "0b01111110", "0x7bff"]
 
@@ -472,8 +477,8 @@ def expand (s : Sys) (built : Bool) (fields : List String) : Option (List SysOp 
     | some nm, "0" => some ([.setOpt nm false], built)
     | _, _ => none
   | "S" :: _cls :: dep :: text :: nested =>
-    -- cls(text) → str_to_bitstore(text) (bits.py:494-495, 1786).  On a miss the function body runs and every
-    -- `bits=<string>` token converts its value with Bits(<string>) → str_to_bitstore again (bits.py:578), before the
+    -- cls(text) → str_to_bitstore(text) (bits.py:501-502, 1824).  On a miss the function body runs and every
+    -- `bits=<string>` token converts its value with Bits(<string>) → str_to_bitstore again (bits.py:604), before the
     -- outer result is stored.
     let a := parseDep text dep
     match lruFind s.cStr a with
@@ -484,10 +489,10 @@ def expand (s : Sys) (built : Bool) (fields : List String) : Option (List SysOp 
     | some cid => some ([.call cid (parseDep text dep)], built)
     | none => none
   | "P" :: dep :: text :: _ => some ([.call .tokenparser (parseDep text dep)], built)        -- pack: methods.py:52
-  | "U" :: dep :: text :: _ => some ([.call .preprocessTokens (parseDep text dep)], built)   -- unpack/readlist: bits.py:1180
-  | "D" :: dep :: text :: _ => some ([.call .create (parseDep text dep)], built)             -- Dtype(...): dtypes.py:333-337
+  | "U" :: dep :: text :: _ => some ([.call .preprocessTokens (parseDep text dep)], built)   -- unpack/readlist: bits.py:1217
+  | "D" :: dep :: text :: _ => some ([.call .create (parseDep text dep)], built)             -- Dtype(...): dtypes.py:323-337
   | "A" :: dep :: text :: _ =>
-    -- Array(Dtype(name, scale='auto'), values): the table is built on first use (array_.py:98-110)
+    -- Array(Dtype(name, scale='auto'), values): the table is built on first use (array_.py:98-112)
     let pre := if built then [] else largestValuesLiterals.map fun t => SysOp.call .strToBitstore (plainCall t)
     some (pre ++ [.call .create (parseDep text dep)], true)
   | "B" :: cls :: attr :: _ => some ([.useMethod (cls, attr)], built)
